@@ -175,7 +175,9 @@ def assertTarget (d : Descr) (p : Ty) : Ty := if d.strict then addNull p else p
 /-- does descriptor `d` possibly fit? then the per-argument assertion targets (`none` = certainly fits, no assertion) -/
 def maybeFit (d : Descr) (argTys : List Ty) : Option (List (Option Ty)) :=
   let ats := viewArgs d argTys
-  if ats.length != d.args.length then none
+  -- (after `fix: overloads with a type function never match in the second resolution pass`)
+  if d.typeFn.isSome then none
+  else if ats.length != d.args.length then none
   else
     let rels := (ats.zip d.args).map fun p => tyIs p.1 p.2
     if rels.any (· == .isnt) then none
